@@ -149,7 +149,8 @@ class SelectorMap:
     node = self._selector_tree
 
     for component in reversed(selector_components):
-      if component not in node:
+      # (The terminal marker is no name component: it matches nothing.)
+      if component == _TERMINAL_KEY or component not in node:
         return []
       node = node[component]
 
